@@ -92,7 +92,9 @@ ATOMS = [{"r": "lit", "c": A_}, {"r": "lit", "c": 46}, {"r": "lit", "c": 98}, {"
          _CLS(False, [_CL(A_), _CR(98, 99), _CC("word")]), _CLS(True, [_CR(A_, 99), _CC("digit")]),
          {"r": "notlit", "c": A_}, _CLS(False, [_CR(A_, 99)]), _CLS(True, [_CL(A_)]),
          _CLS(True, [_CR(32, 126)]), _CLS(False, [_CC("space")]), _CLS(False, [_CC("ndigit")]),
-         _CLS(True, [_CC("word"), _CL(45)]), _CLS(False, [_CC("nword")]), _CLS(True, [_CC("nspace")])]
+         _CLS(True, [_CC("word"), _CL(45)]), _CLS(False, [_CC("nword")]), _CLS(True, [_CC("nspace")]),
+         # negated classes that leave only punctuation / only letters as candidates
+         _CLS(True, [_CC("word"), _CL(32), _CL(45)]), _CLS(True, [_CR(32, 64), _CR(91, 96), _CR(123, 126)])]
 INF = -1
 BOUNDS = [(0, 1), (0, INF), (1, INF), (1, 3), (33, INF), (2, 2), (0, 0), (0, 44), (40, 44), (2, INF)]
 UNS = ["lookahead", "nlookahead", "lookbehind", "nlookbehind", "backref", "atomic", "possessive"]
